@@ -526,47 +526,9 @@ Section Sticky.
     unfold arrayindex_g. destruct y; try discriminate; cbn;
       (destruct x; try discriminate; match goal with |- context [py_index ?l ?i] => destruct (py_index l i) end; discriminate).
   Qed.
-  Lemma step_arrayindex_eq f a b : simple a ->
-    step (S f) (PArrayIndex a b) =
-      (let '(oa, a') := value f a in
-       match oa with
-       | Yield va => let '(ob, b') := value f b in
-                     match ob with Yield vb => (arrayindex_g va vb, PArrayIndex a' b') | _ => (ob, PArrayIndex a' b') end
-       | _ => (oa, PArrayIndex a' b)
-       end).
-  Proof.
-    intro Sa.
-    assert (E : step (S f) (PArrayIndex a b) =
-      (let '(ol, list') := value f a in
-              match ol with
-              | Yield vl =>
-                  let '(oi, index') := value f b in
-                  match oi with
-                  | Yield VNone => (Yield VNone, PArrayIndex list' index')
-                  | Yield vi =>
-                      match py_int vi with
-                      | Yield (VInt i) =>
-                          match vl with
-                          | VList l | VTup l =>
-                              match py_index l i with
-                              | None => (Raise IndexError, PArrayIndex list' index')
-                              | Some v => (Yield v, PArrayIndex list' index')
-                              end
-                          | VStr _ | VDict _ => (Inexact, PArrayIndex list' index')
-                          | _ => (Raise TypeError, PArrayIndex list' index')
-                          end
-                      | Yield _ => (Inexact, PArrayIndex list' index')
-                      | o => (o, PArrayIndex list' index')
-                      end
-                  | _ => (oi, PArrayIndex list' index')
-                  end
-              | _ => (ol, PArrayIndex list' b)
-              end)) by (destruct a; try contradiction; reflexivity).
-    rewrite E. clear E. destruct (value f a) as [oa a']. destruct oa; try reflexivity.
-    destruct (value f b) as [ob b']. destruct ob as [vb| | | |]; try reflexivity.
-    unfold arrayindex_g. destruct vb; try reflexivity; cbn;
-      (destruct a0; try reflexivity; match goal with |- context [py_index ?l ?i] => destruct (py_index l i) end; reflexivity).
-  Qed.
+  (* PArrayIndex (repaired, C09-parrayindex-revives): once exhausted it stays so *)
+  Lemma arrayindex_exhausted_quiet list index : forall f2, quiet f2 (PArrayIndex list index true).
+  Proof. intros [|f2]; [apply quiet_0|]. apply stable_quiet with (o := Stop); [apply arrayindex_exhausted_stable|reflexivity]. Qed.
 
   (** * The counter-terminated classes at ANY fuel *)
   Ltac hsplit H :=
@@ -644,7 +606,7 @@ Section Sticky.
   | FP_indexof_list l b : farg b -> fpat (PIndexOf (AL l) b)
   | FP_dictkey a b : farg a -> farg b -> fpat (PDictKey a b)
   | FP_dictkey_dict kv b : farg b -> fpat (PDictKey (AD kv) b)
-  | FP_arrayindex a b : farg a -> farg b -> fpat (PArrayIndex a b)
+  | FP_arrayindex a b e : farg a -> farg b -> fpat (PArrayIndex a b e)
   (* concatenation of patterns / scalars of the fragment *)
   | FP_concat l pos : Forall farg l -> fpat (PConcatenate (AL l) pos)
   with farg : arg -> Prop :=
@@ -750,7 +712,9 @@ Section Sticky.
             fclosed_case IHs IHv IHn.
         * rewrite step_dictkey_eq by (apply farg_simple; assumption). fclosed_case IHs IHv IHn.
         * rewrite step_dictkey_dict_eq. fclosed_case IHs IHv IHn.
-        * rewrite step_arrayindex_eq by (apply farg_simple; assumption). fclosed_case IHs IHv IHn.
+        * rewrite step_arrayindex_unfold. destruct e; [exact Hp|].
+          rewrite arrayindex_body_gen by (intros l0 E0; subst; match goal with Ha : farg (AL _) |- _ => inversion Ha end).
+          fclosed_case IHs IHv IHn.
         * rewrite step_concat_eq. destruct (py_index l pos) as [a|] eqn:Ei; [|exact Hp].
           pose proof (IHn a (py_index_Forall _ _ _ _ H Ei)) as Fa'. destruct (anext f a) as [o a']. cbn [snd] in Fa'. cbv zeta.
           pose proof (Forall_update_nth farg l (py_index_pos l pos) a' H Fa') as Hl'.
@@ -903,13 +867,7 @@ Section Sticky.
           apply (unary_quiet binop LMAX (fun b => PDictKey (AD kv) b) (dictkey_g (VDict d)) MS).
           eapply AQ; [|eassumption]; assumption.
         * (* PArrayIndex *)
-          pose proof (farg_simple _ H0) as Sa. pose proof (simple_value f a Sa) as Sa'.
-          destruct (bs_stop PArrayIndex arrayindex_g step_arrayindex_eq arrayindex_g_no_stop f a b p' Sa H) as [[a' [E ->]]|[va [a' [b' [Ea [Eb ->]]]]]];
-            (intros [|f2]; [apply quiet_0|]); apply (bs_quiet PArrayIndex arrayindex_g step_arrayindex_eq).
-          -- rewrite E in Sa'. exact Sa'.
-          -- left. eapply AQ; [|eassumption]; assumption.
-          -- rewrite Ea in Sa'. exact Sa'.
-          -- right. eapply AQ; [|eassumption]; assumption.
+          destruct (arrayindex_stop binop LMAX _ _ _ _ _ H) as [l' [i' ->]]. apply arrayindex_exhausted_quiet.
         * (* PConcatenate *)
           destruct (concat_stop farg farg_anext_closed _ _ _ _ H0 H) as [l' [pos' [a0 [a' [f0 [-> [Hp [Hi [Fa0 [Ea0 Lt]]]]]]]]]].
           intros [|f2]; [apply quiet_0|].
